@@ -219,18 +219,21 @@ def _run_range(prop, ps, binp, seed, tier, a, b, tmpdir, res, wid, verbose=False
                     p.wait()
                     break
         evs = _read_events(outp)
-        last_begin, done, phase, restart = None, False, 'unknown', False
+        last_begin, done, phase, restart, ctx = None, False, 'unknown', False, None
         for e in evs:
             t = e.get('t')
             if t == 'begin':
                 last_begin = e['case']
                 phase = 'unknown'
+                ctx = None
             elif t == 'viol':
                 res.add_viol(e['key'], dict(pass_name=ps.name, case=e['case'], seed=seed, tier=tier, detail=e.get('detail')))
             elif t == 'signal':
                 phase = e.get('phase', 'unknown')
             elif t == 'phase':
                 phase = e.get('p', 'unknown')
+            elif t == 'ctx':
+                ctx = e.get('v')
             elif t == 'restart':
                 restart = True
             elif t == 'baddone':
@@ -279,7 +282,7 @@ def _run_range(prop, ps, binp, seed, tier, a, b, tmpdir, res, wid, verbose=False
                 start = last_begin   # re-run the same case once
                 continue
             key = '%s:hang:%s' % (prop, phase if phase != 'unknown' else ps.mode)
-            res.add_viol(key, dict(pass_name=ps.name, case=last_begin, seed=seed, tier=tier, detail={'what': 'no progress for %ds, twice' % ps.stall_s}))
+            res.add_viol(key, dict(pass_name=ps.name, case=last_begin, seed=seed, tier=tier, detail={'what': 'no progress for %ds, twice' % ps.stall_s, 'context': ctx}))
         else:
             sig = -rc if rc is not None and rc < 0 else 0
             if done and rc != 0:
@@ -291,7 +294,7 @@ def _run_range(prop, ps, binp, seed, tier, a, b, tmpdir, res, wid, verbose=False
                 break
             key, desc = classify_crash(prop, st, sig, phase)
             res.add_viol(key, dict(pass_name=ps.name, case=last_begin, seed=seed, tier=tier,
-                                   detail={'what': desc, 'rc': rc, 'phase': phase, 'stderr_tail': st[-14000:]}))
+                                   detail={'what': desc, 'rc': rc, 'phase': phase, 'context': ctx, 'stderr_tail': st[-14000:]}))
         with res.lock:
             res.cases_run += (last_begin + 1 - start)
         start = last_begin + 1
